@@ -615,6 +615,124 @@ pub fn run_c01(ctx: &Ctx) -> Result<(), String> {
             return Err(e);
         }
     }
+    // Replays of GENUINE responses of the real server (current tree) through a recording proxy: the
+    // harness sits between the client and a real roughenough-server, forwards the client's requests,
+    // and decides which recorded genuine response each request gets. A response that answers an
+    // earlier request (of a previous run, or of this run) must be refused. (The reference responder
+    // above signs with its own keys and its own idea of the leaf; this part needs no such idea: the
+    // replayed bytes are exactly what the real server produced.)
+    {
+        use crate::proc::{start_serving, Source, Written, BASE_SEED_HEX};
+        let rpk = crypto::public_key(&crypto::unhex(BASE_SEED_HEX).try_into().unwrap());
+        let (mut sp, port) = start_serving(
+            &|port| {
+                let mut w = Written::base(port);
+                w.set("num_workers", "1");
+                w
+            },
+            Source::File,
+            1,
+            std::time::Duration::from_secs(20),
+        )?;
+        let server: std::net::SocketAddr = format!("127.0.0.1:{}", port).parse().unwrap();
+        // upstream: one socket per forwarded request, all sent before any reply is read (so the real
+        // server may put them into one batch), replies matched by socket
+        let ask = |reqs: &[Vec<u8>]| -> Result<Vec<Vec<u8>>, String> {
+            let socks: Vec<std::net::UdpSocket> = reqs.iter().map(|_| std::net::UdpSocket::bind("127.0.0.1:0").unwrap()).collect();
+            for (s, r) in socks.iter().zip(reqs) {
+                s.set_read_timeout(Some(std::time::Duration::from_secs(3))).unwrap();
+                s.send_to(r, server).map_err(|e| e.to_string())?;
+            }
+            let mut out = vec![];
+            let mut buf = [0u8; 4096];
+            for s in &socks {
+                match s.recv_from(&mut buf) {
+                    Ok((l, _)) => out.push(buf[..l].to_vec()),
+                    Err(e) => return Err(format!("real server did not answer a forwarded request: {}", e)),
+                }
+            }
+            Ok(out)
+        };
+        let mut proxy_n = 0u64;
+        for v in [Version::Classic, Version::Ietf13] {
+            let proto = if v == Version::Classic { "0" } else { "13" };
+            for b64 in [false, true] {
+                let key = if b64 { crypto::base64(&rpk, false, true) } else { crypto::hex(&rpk) };
+                // run A: pass-through, recorded
+                let args = ["-z", "-v", "-f", "%s %f", "-p", proto, "-t", "5", "-k", key.as_str()];
+                let mut recorded: Option<(Vec<u8>, Vec<u8>)> = None;
+                let mut upstream_err = None;
+                let run_a = run_client(&args, 1, |reqs| match ask(&[reqs[0].0.clone()]) {
+                    Ok(mut r) => {
+                        let d = r.remove(0);
+                        recorded = Some((reqs[0].0.clone(), d.clone()));
+                        vec![vec![d]]
+                    }
+                    Err(e) => {
+                        upstream_err = Some(e);
+                        vec![vec![]]
+                    }
+                })?;
+                if let Some(e) = upstream_err {
+                    sp.kill();
+                    return Err(e);
+                }
+                let (req_a, reply_a) = recorded.unwrap();
+                let a_ok = run_a.exit.code == Some(0) && !printed_times(&run_a.exit.stdout).is_empty();
+                baseline.insert(format!("real-server-pass-through:{}:{}", v.name(), if b64 { "base64" } else { "hex" }), json!(a_ok));
+                proxy_n += 1;
+                // run B: a later run gets the recorded response of run A
+                let run_b = run_client(&args, 1, |_reqs| vec![vec![reply_a.clone()]])?;
+                proxy_n += 1;
+                evals.fetch_add(2, Relaxed);
+                nontrivial.fetch_add(1, Relaxed);
+                let b_acc = run_b.exit.code == Some(0) && !printed_times(&run_b.exit.stdout).is_empty();
+                let same_request = run_b.requests[0].0 == req_a;
+                *classes.lock().unwrap().entry(format!("real-server-replay:cross-run:{}:{}", v.name(), if b_acc { "accepted" } else { "refused" })).or_insert(0) += 1;
+                if same_request {
+                    ctx.violation("nonce-not-fresh", "request-nonce", "across-runs", json!({"kind":"client-proxy","version":v.name(),"message":"two runs sent byte-identical requests","request":hex_trunc(&req_a, 2048)}));
+                } else if b_acc {
+                    ctx.violation("accepted-unauthentic", "merkle", "T6-replay-of-real-server-response/previous-run", json!({"kind":"client-proxy","version":v.name(),"key_form":if b64 { "base64" } else { "hex" },
+                        "message":"a genuine response of the real server, recorded in one client run, was accepted as the answer to the (different) request of a later run",
+                        "recorded_for_request":hex_trunc(&req_a, 2048),"replayed_to_request":hex_trunc(&run_b.requests[0].0, 2048),"response":hex_trunc(&reply_a, 4096),"exit":run_b.exit.code,"stdout":run_b.exit.stdout}));
+                }
+                // within one run: -n k, all assignment functions request s -> genuine response of request j
+                for nreq in ctx.tier.pick(vec![2usize], vec![2, 3]) {
+                    let nstr = nreq.to_string();
+                    let margs = ["-z", "-v", "-f", "%s %f", "-p", proto, "-t", "5", "-k", key.as_str(), "-n", nstr.as_str()];
+                    for code in 0..nreq.pow(nreq as u32) {
+                        let assign: Vec<usize> = (0..nreq).map(|s| (code / nreq.pow(s as u32)) % nreq).collect();
+                        let mut upstream_err = None;
+                        let run = run_client(&margs, nreq, |reqs| match ask(&reqs.iter().map(|r| r.0.clone()).collect::<Vec<_>>()) {
+                            Ok(genuine) => (0..nreq).map(|s| vec![genuine[assign[s]].clone()]).collect(),
+                            Err(e) => {
+                                upstream_err = Some(e);
+                                vec![vec![]; nreq]
+                            }
+                        })?;
+                        if let Some(e) = upstream_err {
+                            sp.kill();
+                            return Err(e);
+                        }
+                        proxy_n += 1;
+                        evals.fetch_add(1, Relaxed);
+                        nontrivial.fetch_add(1, Relaxed);
+                        // the genuine response of request j answers request s only if j == s (the
+                        // requests of one run differ: checked by nonce freshness above)
+                        let good_prefix = (0..nreq).take_while(|&s| assign[s] == s).count();
+                        let distinct = (0..nreq).all(|a| (0..a).all(|b| run.requests[a].0 != run.requests[b].0));
+                        let times = printed_times(&run.exit.stdout);
+                        *classes.lock().unwrap().entry(format!("real-server-replay:within-run:{}:{}/{}", if run.exit.code == Some(0) { "exit0" } else { "fail" }, times.len(), good_prefix)).or_insert(0) += 1;
+                        if distinct && (times.len() > good_prefix || (run.exit.code == Some(0) && good_prefix < nreq)) {
+                            ctx.violation("accepted-unauthentic", "merkle", "T6-replay-of-real-server-response/within-run", json!({"kind":"client-proxy","version":v.name(),"nreq":nreq,"assignment":assign,"printed_times":times.len(),"authentic_prefix":good_prefix,"exit":run.exit.code,"stdout":run.exit.stdout}));
+                        }
+                    }
+                }
+            }
+        }
+        sp.kill();
+        ctx.cov("real_server_proxy_runs", json!(proxy_n));
+    }
     // T8 sampled random multi-byte mutations
     let mut sampled = 0u64;
     {
@@ -655,7 +773,7 @@ pub fn run_c01(ctx: &Ctx) -> Result<(), String> {
     ctx.cov("outcome_classes", json!(*classes.lock().unwrap()));
     ctx.cov("exhaustive", json!(true));
     ctx.cov("bound", json!({"deviations": 1, "batch_shapes": shapes(ctx.tier), "multi_request": [2, 3]}));
-    ctx.cov("rule", json!("each case = one execution of the real roughenough-client process (-z -v -f '%s %f' -k <S1 key, hex or base64> -p 0|13 [-j]) against a harness UDP responder that builds the honest reply for the request actually received (reference responder, keys S1) and applies ONE tamper operator: T1 every single bit of the whole datagram; T2 field substitutions on SIG, CERT.SIG, PATH, INDX, SREP.{MIDP,RADI,ROOT,VER}, DELE.{PUBK,MINT,MAXT} without re-signing; T3 chain re-signed by another long-term key; T4 properly signed (by S1) delegation window excluding MIDP, root of another batch, ROOT that is not a full node (empty, 4-byte prefix, half, extended); T5 cross-protocol context/tree/framing; T6 replies for other requests (same batch, other batch, previous run; for -n 2/3 all assignment functions); T7 truncations (quick: every 4 bytes, thorough: every byte) and extensions; raw junk; genuine signature values reused in the other role; and, with -n 2, every structured operator on the SECOND reply after an honest first one (state remembered by the client process). 0 deviations = honest baseline. Oracle: violation iff the client exits 0 and prints a time while rtref::authentic (client view, pinned key) rejects. Non-trivial = any case with a tamper operator."));
+    ctx.cov("rule", json!("each case = one execution of the real roughenough-client process (-z -v -f '%s %f' -k <S1 key, hex or base64> -p 0|13 [-j]) against a harness UDP responder that builds the honest reply for the request actually received (reference responder, keys S1) and applies ONE tamper operator: T1 every single bit of the whole datagram; T2 field substitutions on SIG, CERT.SIG, PATH, INDX, SREP.{MIDP,RADI,ROOT,VER}, DELE.{PUBK,MINT,MAXT} without re-signing; T3 chain re-signed by another long-term key; T4 properly signed (by S1) delegation window excluding MIDP, root of another batch, ROOT that is not a full node (empty, 4-byte prefix, half, extended); T5 cross-protocol context/tree/framing; T6 replies for other requests (same batch, other batch, previous run; for -n 2/3 all assignment functions); T7 truncations (quick: every 4 bytes, thorough: every byte) and extensions; raw junk; genuine signature values reused in the other role; and, with -n 2, every structured operator on the SECOND reply after an honest first one (state remembered by the client process). Also, through a recording proxy in front of a real roughenough-server of the current tree: the genuine response recorded in one run replayed to a later run, and with -n 2 (thorough 3) every assignment of the run's genuine responses to its requests. 0 deviations = honest baseline. Oracle: violation iff the client exits 0 and prints a time while rtref::authentic (client view, pinned key) rejects. Non-trivial = any case with a tamper operator."));
     ctx.sample(json!({"version":"classic","n":3,"i":2,"op":"set:CERTSIG:by-s2","key":"hex"}));
     ctx.sample(json!({"version":"ietf13","n":1,"i":0,"op":"flipbit:1007","key":"base64"}));
     ctx.sample(json!({"version":"classic","nreq":3,"assignment":[1,0,2]}));
@@ -826,6 +944,66 @@ pub fn run_c03(ctx: &Ctx) -> Result<(), String> {
             }
         }
     }
+    // local time zones: without -z the client prints local time. The instant it names must still be
+    // the signed midpoint (%s), and the local calendar fields must be the midpoint shifted by the
+    // zone's offset at that instant (offsets of the table below are facts of the tz database,
+    // cross-checked when the table was written; POSIX TZ strings carry their own offset).
+    {
+        // (TZ, [(unix seconds, UTC offset in seconds)])
+        let ny: Vec<(u64, i64)> = vec![(1_768_478_400, -18000), (1_784_116_800, -14400), (1_772_937_000, -18000), (1_793_496_600, -14400)];
+        let fixed = |off: i64| -> Vec<(u64, i64)> { vec![(1_768_478_400, off), (1_784_116_800, off), (1_772_937_000, off), (1_793_496_600, off), (253_402_214_399, off), (86_400, off)] };
+        let mut zones: Vec<(&str, Vec<(u64, i64)>)> = vec![("UTC", fixed(0)), ("JST-9", fixed(32400)), ("EST5", fixed(-18000)), ("<+0545>-5:45", fixed(20700))];
+        if std::path::Path::new("/usr/share/zoneinfo/Asia/Tokyo").exists() {
+            zones.push(("Asia/Tokyo", fixed(32400)));
+        }
+        if std::path::Path::new("/usr/share/zoneinfo/America/New_York").exists() {
+            zones.push(("America/New_York", ny));
+        }
+        let mut tcases = vec![];
+        for (tz, pts) in &zones {
+            for (pi, &(secs, off)) in pts.iter().enumerate() {
+                for v in [Version::Classic, Version::Ietf13] {
+                    for utc_flag in [false, true] {
+                        if ctx.tier == Tier::Quick && utc_flag && pi > 1 {
+                            continue;
+                        }
+                        tcases.push((tz.to_string(), secs, off, v, utc_flag));
+                    }
+                }
+            }
+        }
+        par_for(tcases.len(), 2, |k, _| {
+            let (tz, secs, off, v, utc_flag) = tcases[k].clone();
+            let sc = Scenario { v, n: 1, i: 0, stamp: Stamp::at(v, secs, 250_000) };
+            let proto = if v == Version::Classic { "0" } else { "13" };
+            let mut args = vec!["-p", proto, "-t", "5", "-f", "%s %f|%Y-%m-%d %H:%M:%S %z"];
+            if utc_flag {
+                args.push("-z");
+            }
+            let run = match crate::proc::run_client_tz(&args, 1, &tz, |reqs| vec![vec![apply(&Op::Honest, &sc, &reqs[0].0, &[])]]) {
+                Ok(r) => r,
+                Err(e) => {
+                    *failed.lock().unwrap() = Some(e);
+                    return;
+                }
+            };
+            evals.fetch_add(1, Relaxed);
+            let nanos = if v == Version::Classic { 250_000_000u32 } else { 0 };
+            let eff = if utc_flag { 0 } else { off };
+            let c = rtref::time::civil_from_unix((secs as i64 + eff) as u64);
+            let want = format!("{} {:09}|{:04}-{:02}-{:02} {:02}:{:02}:{:02} {}{:02}{:02}", secs, nanos, c.year, c.month, c.day, c.hour, c.min, c.sec, if eff < 0 { '-' } else { '+' }, eff.abs() / 3600, eff.abs() % 3600 / 60);
+            let got = run.exit.stdout.lines().last().unwrap_or("").trim().to_string();
+            *classes.lock().unwrap().entry(format!("tz:{}:{}", tz, if got == want { "as-expected" } else { "differs" })).or_insert(0) += 1;
+            if run.exit.code != Some(0) || got != want {
+                ctx.violation(if run.exit.code != Some(0) { "honest-reply-rejected" } else { "printed-time-differs" }, "local-time", &format!("{}/{}", v.name(), if utc_flag { "utc-flag" } else { "local-zone" }),
+                    json!({"kind":"honest-tz","peer":"reference-responder","version":v.name(),"tz":tz,"secs":secs,"utc_flag":utc_flag,"want":want,"got":got,"exit":run.exit.code,"stderr_first":run.exit.stderr.lines().take(3).collect::<Vec<_>>()}));
+            }
+        });
+        if let Some(e) = failed.lock().unwrap().take() {
+            return Err(e);
+        }
+        ctx.cov("time_zone_cases", json!({"zones": zones.iter().map(|z| z.0).collect::<Vec<_>>(), "runs": tcases.len()}));
+    }
     // (2) the real server binary as honest peer, -n k so requests really land in batches
     let real_n = crate::proc::c03_real_server_part(ctx, &classes)?;
     ctx.cov("evaluations", json!(evals.load(Relaxed) + real_n));
@@ -833,13 +1011,27 @@ pub fn run_c03(ctx: &Ctx) -> Result<(), String> {
     ctx.cov("outcome_classes", json!(*classes.lock().unwrap()));
     ctx.cov("exhaustive", json!(true));
     ctx.cov("bound", json!({"batch_shapes": shapes.len(), "midpoints": mids.len(), "real_server_runs": real_n}));
-    ctx.cov("rule", json!("each case = one execution of the real client against (1) the reference responder placing the client's request at position i of a batch of n (quick: all i for n in {1,2,3,5,8}, i in {0,31,63} for 64; thorough: all 2080 shapes n<=64) with a signed midpoint from {0, 1us, 1.999999s, 2^31-1, 2^31, now, year 2200, 9999-12-31T23:59:59.999999}, version x key option {none, hex, base64} x plain/JSON; the key spelled as lower/upper/mixed-case hex and base64; (2) the real server binary with -n k. Oracle: exit 0, printed time == signed midpoint converted from the protocol unit (independent calendar conversion for the default format), verified=Yes iff a key was given, merkle_index == i."));
+    ctx.cov("rule", json!("each case = one execution of the real client against (1) the reference responder placing the client's request at position i of a batch of n (quick: all i for n in {1,2,3,5,8}, i in {0,31,63} for 64; thorough: all 2080 shapes n<=64) with a signed midpoint from {0, 1us, 1.999999s, 2^31-1, 2^31, now, year 2200, 9999-12-31T23:59:59.999999}, version x key option {none, hex, base64} x plain/JSON; the key spelled as lower/upper/mixed-case hex and base64; (2) the real server binary with -n k. Oracle: exit 0, printed time == signed midpoint converted from the protocol unit (independent calendar conversion for the default format), verified=Yes iff a key was given, merkle_index == i. Local time: the client run under TZ in {UTC, JST-9, EST5, <+0545>-5:45, Asia/Tokyo, America/New_York} with and without -z at instants either side of the 2026 DST changes (including instants whose UTC calendar fields fall into New York's skipped and repeated hour): %s == midpoint and the calendar fields == midpoint + zone offset."));
     ctx.sample(json!({"peer":"reference-responder","version":"ietf13","n":5,"i":3,"midpoint":[2147483648u64, 500000],"key":"hex"}));
     ctx.sample(json!({"peer":"real-server","version":"classic","n":8}));
     Ok(())
 }
 
 pub fn replay_case_c03(c: &Value) -> Result<Option<String>, String> {
+    if c["kind"] == "honest-tz" {
+        let v = if c["version"] == "classic" { Version::Classic } else { Version::Ietf13 };
+        let secs = c["secs"].as_u64().ok_or("secs")?;
+        let tz = c["tz"].as_str().ok_or("tz")?;
+        let utc_flag = c["utc_flag"].as_bool().unwrap_or(false);
+        let sc = Scenario { v, n: 1, i: 0, stamp: Stamp::at(v, secs, 250_000) };
+        let mut args = vec!["-p", if v == Version::Classic { "0" } else { "13" }, "-t", "5", "-f", "%s %f|%Y-%m-%d %H:%M:%S %z"];
+        if utc_flag {
+            args.push("-z");
+        }
+        let run = crate::proc::run_client_tz(&args, 1, tz, |reqs| vec![vec![apply(&Op::Honest, &sc, &reqs[0].0, &[])]])?;
+        let got = run.exit.stdout.lines().last().unwrap_or("").trim().to_string();
+        return Ok(if run.exit.code == Some(0) && Some(got.as_str()) == c["want"].as_str() { None } else { Some(format!("exit {:?}, printed {:?}, want {}", run.exit.code, got, c["want"])) });
+    }
     if c["kind"] != "honest" || c["peer"] != "reference-responder" || c["midpoint"].is_null() {
         return Err("replay of this case kind: re-run the check".into());
     }
